@@ -6,7 +6,7 @@
    transition leaves a legal configuration.  A never-recorded history state resolves to a single state (its default
    target, the parent's initial child, or the parallel parent itself) and the chain theorem of PreserveP applies. *)
 From XSM Require Import Model.Macro Proofs.TreeP Proofs.GuardP Proofs.StepP Proofs.LegalP Proofs.DescentP Proofs.EffectP
-     Proofs.PreserveP Proofs.SnapP Proofs.SortP Proofs.OrderP Proofs.HistP Proofs.TreeEntryP.
+     Proofs.PreserveP Proofs.SnapP Proofs.SortP Proofs.OrderP Proofs.HistP Proofs.TreeEntryP Proofs.PhaseP Proofs.AccountP.
 From Coq Require Import Lia Permutation Sorting.Sorted.
 
 (* what is remembered for p: the proper descendants of p in a legal configuration that contains p *)
@@ -200,8 +200,32 @@ Section Visited.
   Let l := combined_path m d hts.
   Let Bs := if is_parallel m d then branches m d hts else children m d.
 
-  Theorem visited_legal :
-    Legal m (add_all (entered (S (size m)) m l) (remove_all (rev (sort_by (lt_depth_id m) (exit_set_h m C H d h))) C)).
+  (* everything the tree theorems need, for the combined entry path of a recorded history state *)
+  Definition tree_hyps : Prop :=
+    (forall x, In x l -> x < size m) /\ (forall x, In x l -> is_history m x = false)
+    /\ (forall x, In x l -> exists q, parent m x = Some q /\ (q = d \/ In q l))
+    /\ (forall x c c', In x l -> kind_of m x = KCompound -> In c (children m x) -> In c' (children m x) -> In c l -> In c' l -> c = c')
+    /\ l <> []
+    /\ (forall b, In b Bs -> In b (children m d))
+    /\ (forall r, In r l /\ parent m r = Some d -> In r Bs)
+    /\ (kind_of m d = KCompound -> (forall c, In c (children m d) -> In c Bs) /\
+                                  (forall r r', In r l /\ parent m r = Some d -> In r' l /\ parent m r' = Some d -> r = r'))
+    /\ (kind_of m d = KParallel -> forall b, In b Bs -> is_history m b = false -> In b l /\ parent m b = Some d)
+    /\ remove_all (rev (sort_by (lt_depth_id m) (exit_set_h m C H d h))) C = kept m Bs C
+    /\ NoDup l.
+
+  Lemma combined_nodup : NoDup l.
+  Proof.
+    unfold l, combined_path. fold (step_add). generalize hts. intros ts.
+    assert (G : forall P acc, NoDup acc -> NoDup (fold_left step_add P acc)).
+    { induction P as [|y r IH]; intros acc Hn; simpl; [exact Hn|]. apply IH. unfold step_add. destruct (mem y acc) eqn:E; [exact Hn|].
+      apply mem_false in E. apply (nodup_app acc [y] Hn); [repeat constructor; intros [] | intros z Hz [<-|[]]; contradiction]. }
+    assert (G2 : forall ts0 acc, NoDup acc -> NoDup (fold_left (fun acc0 t => fold_left step_add (path_to m t d) acc0) ts0 acc)).
+    { induction ts0 as [|t r IH]; intros acc Hn; simpl; [exact Hn|]. apply IH. now apply G. }
+    apply G2. constructor.
+  Qed.
+
+  Lemma visited_setup : tree_hyps.
   Proof.
     destruct (HH p Hvis) as [C0 [HL0 [HpC0 Hrem]]].
     destruct (resolve_visited H h p Hp Hvis) as [Hne Hsub]. fold hts in Hne, Hsub.
@@ -235,8 +259,7 @@ Section Visited.
       destruct (branch_of m d t) as [b'|] eqn:Eb; [|destruct Hb]. destruct Hb as [<-|[]]. apply branch_of_child in Eb as [Hpb Hanc].
       fold hts in Hin. destruct (Ht t Hin) as [_ [Hts _]]. assert (Hbs : b' < size m) by now apply (anc_self_lt_size m Hwf t).
       now destruct (parent_props m Hwf b' d Hbs Hpb) as [_ [Hc _]]. }
-    rewrite Hkeep.
-    apply (tree_entry_legal m Hwf Hgood d l Hds).
+    unfold tree_hyps. split; [|split; [|split; [|split; [|split; [|split; [|split; [|split; [|split; [|split; [exact Hkeep | exact combined_nodup]]]]]]]]]].
     - intros x Hx. apply (L_range m _ HL0). now apply HlC0.
     - intros x Hx. apply (L_nohist m _ HL0). now apply HlC0.
     - intros x Hx. apply Hl in Hx as [t [Hin Hx]]. destruct (Hch t Hin) as [Hc _].
@@ -246,8 +269,6 @@ Section Visited.
       assert (Hne' : children m x <> []) by (intros E; rewrite E in Hc; destruct Hc).
       destruct (legal_one_active_child m C0 x Hwf HL0 (HlC0 x Hx) Hk Hne') as [c0 [_ [_ Hu]]].
       rewrite (Hu c Hc (HlC0 c Hcl)), (Hu c' Hc' (HlC0 c' Hc'l)). reflexivity.
-    - exact HL.
-    - exact HdC.
     - destruct hts as [|t0 r0] eqn:Eh; [congruence|]. assert (Hin : In t0 hts) by (rewrite Eh; now left). rewrite <- Eh in *.
       destruct (Hhead t0 Hin) as [x1 [_ [_ [_ [Hx1 _]]]]]. intros E. rewrite E in Hx1. destruct Hx1.
     - (* the branch roots are children of d *)
@@ -273,6 +294,29 @@ Section Visited.
       intros Hk b Hb Hbh. assert (Hpar : is_parallel m d = true) by (unfold is_parallel; now rewrite Hk).
       unfold Bs in Hb. rewrite Hpar in Hb. unfold branches in Hb. apply in_flat_map in Hb as [t [Hin Hb]].
       destruct (Hhead t Hin) as [x1 [P' [_ [Hbr [Hx1 Hpx1]]]]]. rewrite Hbr in Hb. destruct Hb as [<-|[]]. now split.
+  Qed.
+
+  Theorem visited_legal :
+    Legal m (add_all (entered (S (size m)) m l) (remove_all (rev (sort_by (lt_depth_id m) (exit_set_h m C H d h))) C)).
+  Proof.
+    destruct visited_setup as [A1 [A2 [A3 [A4 [A5 [A6 [A7 [A8 [A9 [A10 _]]]]]]]]]].
+    assert (Hds : d < size m) by now apply (L_range m _ HL).
+    rewrite A10. now apply (tree_entry_legal m Hwf Hgood d l Hds A1 A2 A3 A4 C Bs HL HdC A5 A6 A7 A8 A9).
+  Qed.
+
+  (* exactly-once: the entered list has no duplicates and lies at or below the exited branch roots *)
+  Theorem visited_entered_once :
+    NoDup (entered (S (size m)) m l) /\
+    forall y, In y (entered (S (size m)) m l) -> ~ In y (remove_all (rev (sort_by (lt_depth_id m) (exit_set_h m C H d h))) C).
+  Proof.
+    destruct visited_setup as [A1 [A2 [A3 [A4 [A5 [A6 [A7 [A8 [A9 [A10 A11]]]]]]]]]].
+    assert (Hds : d < size m) by now apply (L_range m _ HL).
+    split; [now apply (entered_tree_nodup m Hwf d l Hds A1 A3 A11)|].
+    intros y Hy Hin. rewrite A10 in Hin. apply (kept_In m Bs C y) in Hin as [_ Hk].
+    apply (entered_tree m Hwf d l Hds A1 A2 A3) in Hy as [r [Hr Hyr]].
+    assert (Hc : Closed m r (tset m l (S (size m)) r)) by (apply (tset_closed m Hwf Hgood d l Hds A1 A2 A4); [now destruct Hr | lia]).
+    assert (removedb m Bs y = true) by (apply (removedb_spec m Bs y); exists r; split; [now apply A7 | now apply (K_below m r _ Hc)]).
+    congruence.
   Qed.
 End Visited.
 
@@ -308,6 +352,19 @@ Section Single.
     Legal m (add_all (entered (S (size m)) m (combined_path m d (resolve_history m H h)))
                      (remove_all (rev (sort_by (lt_depth_id m) (exit_set_h m C H d h))) C)).
   Proof. rewrite single_exit, single_path. now apply (formula_legal m Hwf Hgood C d t). Qed.
+
+  Theorem single_entered_once :
+    NoDup (entered (S (size m)) m (combined_path m d (resolve_history m H h))) /\
+    forall y, In y (entered (S (size m)) m (combined_path m d (resolve_history m H h))) ->
+              ~ In y (remove_all (rev (sort_by (lt_depth_id m) (exit_set_h m C H d h))) C).
+  Proof.
+    rewrite single_exit, single_path.
+    destruct (formula_parts m Hwf C d t HL Hts Hdt HdC) as [x1 [P' [Bs [EP [Hchain [Hlast [Hrm [HBs [Hx1B _]]]]]]]]].
+    rewrite EP, Hrm. split; [now apply (AccountP.entered_chain_nodup m Hwf (size m) d)|].
+    intros y Hy Hin. apply (kept_In m Bs C y) in Hin as [_ Hk].
+    assert (Hdy : desc m y x1) by (apply (AccountP.entered_below_head m Hwf Hgood d x1 P' Hchain); [now rewrite Hlast | exact Hy]).
+    assert (removedb m Bs y = true) by (apply (removedb_spec m Bs y); exists x1; now split). congruence.
+  Qed.
 End Single.
 
 (* ---- every transition that targets a history pseudo-state ---- *)
@@ -337,11 +394,17 @@ Section HistTransition.
       pose proof (desc_strict_depth m Hwf y p Hy Hyp Hne). pose proof (desc_depth m Hwf p y Hps Hd). lia.
   Qed.
 
-  Theorem history_formula_legal C H d h :
-    Legal m C -> HistOK m H -> In d C -> h < size m -> is_history m h = true -> hist_static_ok h ->
-    In d (ancestors m h) ->
+  (* the outcome of a history-target transition: a legal configuration, every state entered once, none while active *)
+  Definition good_outcome (C : config) (H : list (nat * list nat)) (d h : nat) : Prop :=
     Legal m (add_all (entered (S (size m)) m (combined_path m d (resolve_history m H h)))
-                     (remove_all (rev (sort_by (lt_depth_id m) (exit_set_h m C H d h))) C)).
+                     (remove_all (rev (sort_by (lt_depth_id m) (exit_set_h m C H d h))) C))
+    /\ NoDup (entered (S (size m)) m (combined_path m d (resolve_history m H h)))
+    /\ forall y, In y (entered (S (size m)) m (combined_path m d (resolve_history m H h))) ->
+                 ~ In y (remove_all (rev (sort_by (lt_depth_id m) (exit_set_h m C H d h))) C).
+
+  Theorem history_formula_good C H d h :
+    Legal m C -> HistOK m H -> In d C -> h < size m -> is_history m h = true -> hist_static_ok h ->
+    In d (ancestors m h) -> good_outcome C H d h.
   Proof.
     intros HL HH HdC Hhs Hh [Hdef Hini] Hd.
     assert (Hds : d < size m) by now apply (L_range m _ HL).
@@ -352,10 +415,10 @@ Section HistTransition.
     destruct (hist_get H p) as [|x rest] eqn:Hg.
     - (* never recorded *)
       assert (Hone : forall t, resolve_history m H h = [t] -> t < size m -> is_history m t = false -> In d (ancestors m t) ->
-                Legal m (add_all (entered (S (size m)) m (combined_path m d (resolve_history m H h)))
-                                 (remove_all (rev (sort_by (lt_depth_id m) (exit_set_h m C H d h))) C))).
-      { intros t Hres Hts Hth Hdt. now apply (single_legal m Hwf Hgood C H d h t HL HdC Hh Hres Hts Hth). }
-      unfold resolve_history in Hone |- *. rewrite Hp, Hg in Hone |- *.
+                good_outcome C H d h).
+      { intros t Hres Hts Hth Hdt. split; [now apply (single_legal m Hwf Hgood C H d h t HL HdC Hh Hres Hts Hth)|].
+        now apply (single_entered_once m Hwf Hgood C H d h t HL HdC Hh Hres Hts Hth). }
+      unfold good_outcome, resolve_history in Hone |- *. rewrite Hp, Hg in Hone |- *.
       destruct (n_hist_default (nd m h)) as [t0|] eqn:Hd0.
       { destruct (Hdef t0 eq_refl) as [H1 [H2 H3]]. apply (Hone t0 eq_refl H1 H2). apply (above_parent_above t0 p d H1 Hps); [now apply H3 | exact Hdp]. }
       destruct (n_initial (nd m p)) as [i|] eqn:Hi.
@@ -375,15 +438,25 @@ Section HistTransition.
           assert (Ex : exit_set_h m C H p h = []).
           { unfold exit_set_h. rewrite Hh, Hpar. unfold resolve_history. rewrite Hp, Hg, Hd0, Hi, Hpar. simpl. rewrite Ebr. simpl.
             induction (filter _ C) as [|y r IH]; [reflexivity | exact IH]. }
-          rewrite Ecp, Ex. rewrite entered_nil. exact HL.
+          rewrite Ecp, Ex. rewrite entered_nil. split; [exact HL|]. split; [constructor | intros y []].
         * apply (Hone p eq_refl Hps Hph). apply (desc_proper m p d Hps Hdp). congruence.
       + (* a compound parent with children declares its initial child *)
         exfalso. destruct Hpk as [Hk|Hk]; [|unfold is_parallel in Hpar; rewrite Hk in Hpar; discriminate].
         assert (Hne : children m p <> []) by (intros E; rewrite E in Hch; destruct Hch).
         destruct (good_compound m Hgood p Hps Hk Hne) as [i [Hi' _]]. congruence.
     - (* recorded *)
-      apply (visited_legal m Hwf Hgood C H d h p HL HdC Hh Hp Hdp HH). rewrite Hg. discriminate.
+      assert (Hv : hist_get H p <> []) by (rewrite Hg; discriminate).
+      split; [now apply (visited_legal m Hwf Hgood C H d h p HL HdC Hh Hp Hdp HH)|].
+      now apply (visited_entered_once m Hwf Hgood C H d h p HL HdC Hh Hp Hdp HH).
   Qed.
+
+  Theorem history_formula_legal C H d h :
+    Legal m C -> HistOK m H -> In d C -> h < size m -> is_history m h = true -> hist_static_ok h ->
+    In d (ancestors m h) ->
+    Legal m (add_all (entered (S (size m)) m (combined_path m d (resolve_history m H h)))
+                     (remove_all (rev (sort_by (lt_depth_id m) (exit_set_h m C H d h))) C)).
+  Proof. intros HL HH HdC Hhs Hh Hst Hd. now destruct (history_formula_good C H d h HL HH HdC Hhs Hh Hst Hd). Qed.
+
 End HistTransition.
 
 (* ---- the history store across one external transition: rewritten by _record_history only ---- *)
@@ -498,6 +571,43 @@ Section HistStep.
     pose proof (external_effect m eng pr t tgt ev s0 s1 Hex) as Heff. cbv zeta in Heff. fold d in Heff. rewrite Hh in Heff.
     rewrite (entered_nil (S (size m)) m) in Heff. unfold add_all at 2 in Heff. cbn [fold_left] in Heff.
     rewrite Heff. now apply (history_formula_legal m Hwf Hgood).
+  Qed.
+
+  (* exactly-once accounting for a completed transition to a history pseudo-state (property C03) *)
+  Theorem history_accounting eng pr t tgt ev s0 s1 :
+    Legal m (s_cfg s0) -> HistOK m (s_hist s0) -> In (t_src t) (s_cfg s0) ->
+    tgt < size m -> is_history m tgt = true -> hist_static_ok m tgt ->
+    exec_external eng pr m t tgt ev s0 = (s1, None) ->
+    exists seg, s_log s1 = seg ++ s_log s0
+      /\ NoDup (leaves_of seg) /\ NoDup (AccountP.enters_of seg)
+      /\ (forall x, In x (leaves_of seg) -> In x (s_cfg s0))
+      /\ (forall x, In x (AccountP.enters_of seg) -> In x (s_cfg s0) -> In x (leaves_of seg))
+      /\ (forall x, In x (s_cfg s1) <-> (In x (s_cfg s0) /\ ~ In x (leaves_of seg)) \/ In x (AccountP.enters_of seg)).
+  Proof.
+    intros HL HH Hsrc Ht Hh Hst Hex.
+    assert (Hne : tgt <> 0) by (intros ->; rewrite (good_root m Hgood) in Hh; discriminate).
+    set (d := find_domain m (t_src t) tgt).
+    assert (Hd : In d (ancestors m tgt)) by (apply (domain_above_target m Hwf); [now apply (L_range m _ HL) | exact Ht | exact Hne]).
+    assert (HdC : In d (s_cfg s0)) by now apply (domain_active m Hwf).
+    destruct (history_formula_good m Hwf Hgood (s_cfg s0) (s_hist s0) d tgt HL HH HdC Ht Hh Hst Hd) as [_ [Hnd Hnot]].
+    destruct (AccountP.external_log m eng pr t tgt ev s0 s1 (L_nodup m _ HL) Hex) as [seg [Elog [Elv Een]]].
+    cbv zeta in Elv, Een. fold d in Elv, Een. rewrite Hh in Een. rewrite (entered_nil (S (size m)) m) in Een. cbn [app] in Een.
+    pose proof (external_effect m eng pr t tgt ev s0 s1 Hex) as Heff. cbv zeta in Heff. fold d in Heff. rewrite Hh in Heff.
+    rewrite (entered_nil (S (size m)) m) in Heff. unfold add_all at 2 in Heff. cbn [fold_left] in Heff.
+    set (X := exit_set_h m (s_cfg s0) (s_hist s0) d tgt) in *.
+    set (xs := rev (sort_by (lt_depth_id m) X)) in *.
+    set (N := entered (S (size m)) m (combined_path m d (resolve_history m (s_hist s0) tgt))) in *.
+    assert (HinX : forall x, In x xs -> In x (s_cfg s0)).
+    { intros x Hx. unfold xs in Hx. rewrite <- in_rev in Hx. apply (proj1 (sort_by_In (lt_depth_id m) x X)) in Hx.
+      now apply (exit_set_h_sub m (s_cfg s0) (s_hist s0) d tgt x). }
+    assert (HXnd : NoDup xs).
+    { unfold xs. apply NoDup_rev. apply (Permutation_NoDup (sort_by_perm (lt_depth_id m) X)).
+      unfold X, exit_set_h, exit_set. destruct (is_history m tgt); destruct (is_parallel m d); try destruct (branch_of m d tgt);
+        repeat apply filter_nodup; apply (L_nodup m _ HL). }
+    exists seg. split; [exact Elog|]. rewrite Elv, Een. split; [exact HXnd|]. split; [exact Hnd|]. split; [exact HinX|]. split.
+    - intros x HxN HxC. destruct (in_dec Nat.eq_dec x xs) as [Hin|Hnin]; [exact Hin|]. exfalso. apply (Hnot x HxN).
+      rewrite remove_all_filter. apply filter_In. split; [exact HxC|]. apply negb_true_iff, mem_false. exact Hnin.
+    - intros x. rewrite Heff. unfold add_all. rewrite fold_cadd_In. fold N. rewrite remove_all_filter, filter_In, negb_true_iff, mem_false. tauto.
   Qed.
 
   (* and, completed or aborted, keeps the history invariant *)
